@@ -10,6 +10,7 @@ import (
 	nd "github.com/ipld/go-ipld-prime/internal/verifnd"
 	"github.com/ipld/go-ipld-prime/node/bindnode"
 	"github.com/ipld/go-ipld-prime/schema"
+	"github.com/ipld/go-ipld-prime/zzverif/ref/refcbor"
 	"github.com/ipld/go-ipld-prime/zzverif/ref/refval"
 	"github.com/ipld/go-ipld-prime/zzverif/schemas"
 )
@@ -319,6 +320,44 @@ func HRepeat() {
 	nd.Assert(len(vals) == nd.Param("CALLS", 2), "repeated binding calls for the same types succeed")
 	for _, x := range vals {
 		nd.Assert(refval.Equal(x, plainOf(*v)), "and give equivalent results")
+	}
+	nd.Reach("end")
+}
+
+// Two different Go types with the same package path and name (declared locally in two functions).
+func recA(name string) (interface{}, *refval.V) {
+	type Rec struct{ Name string }
+	return &Rec{name}, refval.MkMap([]string{"Name"}, []*refval.V{refval.MkString(name)})
+}
+
+func recB(name string, count int64, ok bool) (interface{}, *refval.V) {
+	type Rec struct {
+		Name  string
+		Count int64
+		OK    bool
+	}
+	return &Rec{name, count, ok}, refval.MkMap([]string{"Name", "Count", "OK"}, []*refval.V{refval.MkString(name), refval.MkInt(count), refval.MkBool(ok)})
+}
+
+// HSameName: binding with an inferred schema depends on the Go type, not on its name nor on what
+// was bound before: two distinct types called alike, bound in either order, each expose their own fields.
+func HSameName() {
+	pa, wa := recA(nd.String("a", 1))
+	pb, wb := recB(nd.String("b", 1), nd.Int64("count"), nd.Bool("ok"))
+	ptrs, wants := []interface{}{pa, pb}, []*refval.V{wa, wb}
+	if nd.Choose("order", 2) == 1 {
+		ptrs, wants = []interface{}{pb, pa}, []*refval.V{wb, wa}
+	}
+	for r := 0; r < nd.Param("ROUNDS", 2); r++ {
+		for i := range ptrs {
+			var got *refval.V
+			nd.NoPanic("Wrap", func() { got = refval.Of(bindnode.Wrap(ptrs[i], nil)) })
+			nd.Assert(got != nil && refval.Equal(got, wants[i]), "a value wrapped with an inferred schema exposes exactly its own fields, whatever was bound before")
+			var enc []byte
+			var err error
+			nd.NoPanic("Marshal", func() { enc, err = ipld.Marshal(dagcbor.Encode, ptrs[i], nil) })
+			nd.Assert(err == nil && nd.EqBytes(enc, refcbor.Encode(nil, wants[i])), "and marshals to the encoding of exactly those fields")
+		}
 	}
 	nd.Reach("end")
 }
